@@ -97,6 +97,10 @@ def step (σ : St) (op obs : List String) : St × List Msg :=
     let failAt : Option Nat := if stage = "load" ∨ stage = "none" then none else indexOfStep σ.steps stage
     let (a, ok) := σ.app.reload σ.steps load failAt
     let d := expectEq "reload.result" (if ok then "ok" else s!"err:{stage}") r
+      -- a configuration that cannot be applied is rejected every time it is presented (the model's reload is a
+      -- function of the file and the running state: AM.Config.failed_reload_keeps_running)
+      ++ (if !ok ∧ r = "ok" then [Msg.propfail "failed_reload_keeps_config" "unapplicable-config-accepted"
+            s!"reload of {cfg} with fault {fault} (cannot be applied: {stage}) via {via} was accepted{if σ.lastFailed then " after having been rejected: " ++ σ.lastFault else ""}"] else [])
     let σ' := if r = "ok" then { σ with app := a, implInForce := some cfg, lastFailed := false, lastFault := fault }
               else { σ with app := a, lastFailed := true, lastFault := s!"{cfg} {fault} via {via}: {r}" }
     (σ', d ++ [.tag s!"reload:{stage}", .tag s!"via:{via}", .tag s!"fault:{fault}", .tag (if r = "ok" then "reload:accepted" else "reload:rejected")])
